@@ -74,6 +74,9 @@ def main():
                 ins = new
             else:
                 ins = {n: {"dims": v["dims"], "entries": {c: rng.choice(fvals) for c in v["entries"]}} for n, v in ins.items()}
+            # marker for the parent: if this process dies inside native code, the last marker names the case
+            print("CASE " + json.dumps({"assignment": tpl, "formats": fm, "inputs": {n: {"dims": v["dims"], "entries": [[list(c), x] for c, x in v["entries"].items()]} for n, v in ins.items()}}),
+                  file=sys.stderr, flush=True)
             st1, o1 = S.run_evaluate(tpl, fm, ins, backend="llvm")
             if st1 != "ok":
                 index["skipped"][o1] = index["skipped"].get(o1, 0) + 1
